@@ -5,6 +5,7 @@ CONSTANTS
   MaxRefresh = 1
   MaxDrops = 0
   Reacts = {"ok", "e401", "e438", "err", "badtx"}
+  AllocLen = 3
   RefreshFaults = 1
   Deviations = {}
 INVARIANTS BoundedRetries FreshNonce PermissionFirst NoEmit
